@@ -15,6 +15,33 @@ theorem rhe_nearest (a d : Int) (hd : 0 < d) : 2 * (rhe a d * d - a) ≤ d ∧ -
   simp only
   split_ifs <;> constructor <;> nlinarith
 
+/-- **Half-up is not half-even** (seeded change C13-j): away from ties `floor(x + 1/2)` and round-half-even agree - in exact
+    arithmetic - but at a tie whose lower neighbour is even they differ by one (0.5 → 0 vs 1, 2.5 → 2 vs 3, 254.5 → 254 vs 255, the
+    last one turning a valid pixel into the nodata value 255) -/
+theorem rhe_eq_half_up_off_ties (a d : Int) (hd : 0 < d) (hnt : 2 * (a % d) ≠ d) : rhe a d = (2 * a + d) / (2 * d) := by
+  have h1 := Int.emod_nonneg a (ne_of_gt hd)
+  have h2 := Int.emod_lt_of_pos a hd
+  have h3 := Int.mul_ediv_add_emod a d
+  have hb : 0 < 2 * d := by omega
+  have key : ∀ q : Int, q * (2 * d) ≤ 2 * a + d → 2 * a + d < (q + 1) * (2 * d) → (2 * a + d) / (2 * d) = q := by
+    intro q hlo hhi
+    have l1 := Int.le_ediv_of_mul_le hb hlo
+    have l2 := Int.ediv_lt_of_lt_mul hb hhi
+    omega
+  have e1 : a / d * (2 * d) = 2 * (d * (a / d)) := by ring
+  have e2 : (a / d + 1) * (2 * d) = 2 * (d * (a / d)) + 2 * d := by ring
+  have e3 : (a / d + 1 + 1) * (2 * d) = 2 * (d * (a / d)) + 4 * d := by ring
+  unfold rhe
+  simp only
+  split
+  · exact (key (a / d) (by rw [e1]; omega) (by rw [e2]; omega)).symm
+  · split
+    · exact (key (a / d + 1) (by rw [e2]; omega) (by rw [e3]; omega)).symm
+    · exfalso; omega
+
+theorem half_up_differs_at_even_ties : rhe 1 2 = 0 ∧ (2 * 1 + 2) / (2 * 2) = (1 : Int) ∧ rhe 509 2 = 254 ∧ (2 * 509 + 2) / (2 * 2) = (255 : Int) := by
+  decide
+
 /-- **Ties go to even** -/
 theorem rhe_tie_even (a d : Int) (hd : 0 < d) (htie : 2 * (a % d) = d) : rhe a d % 2 = 0 := by
   unfold rhe
